@@ -264,6 +264,16 @@ func runC13(p *Prog, r *Report) {
 			})
 			x.TrackAll = true
 			x.Filter = noIntFilter
+			// the outcome of this iteration's comparison with errHijacked must still be known when the terminal
+			// action is taken, however far from the comparison that happens (a flag carried across iterations is not it)
+			for _, b := range workerFunc.Blocks {
+				for _, in := range b.Instrs {
+					if bo, ok := in.(*ssa.BinOp); ok && (bo.Op == token.EQL || bo.Op == token.NEQ) &&
+						(globalOf(bo.X) == "errHijacked" || globalOf(bo.Y) == "errHijacked") {
+						x.Track(bo)
+					}
+				}
+			}
 			x.Run(nil)
 			r.Check("R2", "workerFunc: each served connection gets exactly one terminal action (Close+StateClosed, or StateHijacked iff errHijacked)", bad == 0 && n > 0, p.Pos(wcall.Pos()),
 				fmt.Sprintf("%d of %d explored iteration ends violate it (%s)", bad, n, detail), wit...)
